@@ -247,7 +247,7 @@ func main() {
 
 	runCanaries()
 
-	n := run.Pick(400, 12000)
+	n := run.Pick(1500, 12000)
 	deadline := time.Now().Add(time.Duration(run.Pick(20, 90)) * time.Minute)
 	var skipped atomic.Int64
 	evid.Parallel(n, 0, func(i int) {
